@@ -21,6 +21,44 @@ Proof. intros a. split; [apply dabs_pos|apply dabs_neg]. Qed.
 Theorem C19_abs2 : forall a : dual2 R, wf2 a -> (0 < re2 a -> d2abs a = a) /\ (re2 a < 0 -> d2abs a ≈₂ d2neg a).
 Proof. intros a W. split; [apply d2abs_pos|apply d2abs_neg; exact W]. Qed.
 
+(* abs_sub ("positive difference"): when the value does not exceed the other's it is the variable-free zero;
+   otherwise it is the difference, which refines a - b by name (value, every derivative, union of the names);
+   in all cases the result is well formed and its value is the positive part of re a - re b *)
+Theorem C19_abs_sub : forall p (a b : dual R), wf a -> wf b -> (p = true -> vs a = vs b) ->
+  wf (dabs_sub p a b) /\ re (dabs_sub p a b) = Rmax 0 (re a - re b) /\
+  (re a <= re b -> dabs_sub p a b = dzero /\ forall v, coef (dabs_sub p a b) v = 0) /\
+  (re b < re a -> dabs_sub p a b = dsub p a b /\ (forall v, coef (dabs_sub p a b) v = coef a v - coef b v) /\
+                  in_union (dabs_sub p a b) a b).
+Proof. exact dabs_sub_spec. Qed.
+Theorem C19_abs_sub2 : forall p (a b : dual2 R), wf2 a -> wf2 b -> (p = true -> vs2 a = vs2 b) ->
+  wf2 (d2abs_sub p a b) /\ re2 (d2abs_sub p a b) = Rmax 0 (re2 a - re2 b) /\
+  (re2 a <= re2 b -> d2abs_sub p a b = d2zero /\ (forall v, coef1 (d2abs_sub p a b) v = 0) /\
+                     forall u v, coef2 (d2abs_sub p a b) u v = 0) /\
+  (re2 b < re2 a -> d2abs_sub p a b = d2sub p a b /\
+                    (forall v, coef1 (d2abs_sub p a b) v = coef1 a v - coef1 b v) /\
+                    (forall u v, coef2 (d2abs_sub p a b) u v = coef2 a u v - coef2 b u v) /\
+                    in_union2 (d2abs_sub p a b) a b).
+Proof. exact d2abs_sub_spec. Qed.
+(* ... and on the Number container: seven computing cells (a float next to a dual number is promoted to the
+   variable-free constant of that kind), the two Dual-with-Dual2 cells refuse, and whenever a result is
+   returned its value is the positive part of the difference of the values *)
+Theorem C19_abs_sub_number : forall p (a b : number R),
+  (forall f g d e d2 e2,
+     num_abs_sub p (NF f) (NF g) = Ok (NF (fabs_sub f g)) /\
+     num_abs_sub p (NF f) (ND e) = Ok (ND (dabs_sub false (cst f) e)) /\
+     num_abs_sub p (ND d) (NF g) = Ok (ND (dabs_sub false d (cst g))) /\
+     num_abs_sub p (ND d) (ND e) = Ok (ND (dabs_sub p d e)) /\
+     num_abs_sub p (NF f) (ND2 e2) = Ok (ND2 (d2abs_sub false (dual2_new f []) e2)) /\
+     num_abs_sub p (ND2 d2) (NF g) = Ok (ND2 (d2abs_sub false d2 (dual2_new g []))) /\
+     num_abs_sub p (ND2 d2) (ND2 e2) = Ok (ND2 (d2abs_sub p d2 e2)) /\
+     num_abs_sub p (ND d) (ND2 e2) = Panic /\ num_abs_sub p (ND2 d2) (ND e) = Panic) /\
+  (num_abs_sub p a b = Panic <-> Proofs.NumberP.mixed a b = true) /\
+  (forall r, num_abs_sub p a b = Ok r -> num_real r = Rmax 0 (num_real a - num_real b)).
+Proof.
+  intros p a b. split; [intros; apply num_abs_sub_cells|].
+  split; [apply num_abs_sub_refuses|apply num_abs_sub_value].
+Qed.
+
 (* remainder: a % b = a - trunc(a/b) * b in value and in every derivative; float divisor / dividend
    forms equal the promoted-constant form *)
 Theorem C19_rem : forall p a b, wf a -> wf b -> (p = true -> vs a = vs b) ->
@@ -72,6 +110,9 @@ Print Assumptions C19_ordering.
 Print Assumptions C19_ordering_number.
 Print Assumptions C19_abs.
 Print Assumptions C19_abs2.
+Print Assumptions C19_abs_sub.
+Print Assumptions C19_abs_sub2.
+Print Assumptions C19_abs_sub_number.
 Print Assumptions C19_rem.
 Print Assumptions C19_rem2.
 Print Assumptions C19_rem_float.
